@@ -17,9 +17,14 @@ client-signed marker); the time window is the allocation's `[StartTime, Expirati
 timestamp. "Exactly the read price times the newly read size" is the code's float formula, which `chargeOf_exact`
 shows to be the exact floor `⌊price·Δ·CHUNK/GB⌋` whenever `price·Δ·CHUNK < 2^53`.
 
-**Finding (negation witness below, replayed on the real code by the harness, `C15:counter-delta-overflow`)**:
-`numReads * CHUNK_SIZE` is an `int64` product; for a counter increment `Δ ≥ 2^47` it wraps, e.g. `Δ = 2^48` is
-charged 0 and `Δ = 2^48+1` is charged as one chunk, while the stored counter jumps by `Δ`.
+**Finding `C15:counter-delta-overflow` — REPAIRED in /repo commit 83c108b.** `numReads * CHUNK_SIZE` is an `int64`
+product; before the repair a counter increment `Δ ≥ 2^47` wrapped it (`Δ = 2^48` was charged 0, `2^48+1` as one chunk,
+while the stored counter jumped by `Δ`). The contract now refuses every increment outside `[0, MaxInt64/CHUNK_SIZE]`
+(`accepted_increment_in_range`, `overflow_increment_refused`); the wrap of the bare formula is kept below as a
+historical note (`historical_unguarded_formula_wraps`), and the harness oracle keeps the signature active.
+What remains between the model's charge and the rational `price·Δ·CHUNK/GB` is float rounding only: exact floor
+when `price·Δ·CHUNK < 2^53` (`read_charge_floor_partial`), correctly rounded — monotone, one part in 2^53 — above
+(`charge_monotone_in_range`, `float_rounding_witness`).
 -/
 namespace ZChain.ReadMarker
 open ZChain ZChain.Generated.C15
@@ -41,7 +46,7 @@ theorem read_charge_exact {cr : Crypto F} {s s' : St F} {m : Marker F} {v : Nat}
       s'.lastCtr (keyM m) = m.ctr ∧
       (∀ c, c ≠ m.client → aGet s'.pools c = aGet s.pools c) ∧
       (∀ k, k ≠ keyM m → aGet s'.last k = aGet s.last k) := by
-  obtain ⟨_, _, al, d, sp, sp', rr, hal, _, _, hd, _, hval, hbal, _, _, hs⟩ := commit_inv h
+  obtain ⟨_, _, al, d, sp, sp', rr, hal, _, _, hd, _, _, hval, hbal, _, _, hs⟩ := commit_inv h
   subst hs
   refine ⟨al, d, hal, hd, hval, hbal, ?_, ?_, ?_, ?_⟩
   · exact aGet_aSet_same _ _ _
@@ -49,21 +54,59 @@ theorem read_charge_exact {cr : Crypto F} {s s' : St F} {m : Marker F} {v : Nat}
   · intro c hc; exact aGet_aSet_other _ _ _ _ hc
   · intro k hk; exact aGet_aSet_other _ _ _ _ hk
 
-/-- … and the debit is the exact floor `⌊price · Δ · CHUNK / GB⌋` whenever `price · Δ · CHUNK < 2^53`
-(no rounding anywhere in the float pipeline, no `int64` wrap).
-FULL statement (false of the code, see `read_charge_linear_false` / `overflow_undercharges` below): the same for
-every increment `Δ ≥ 0`. Missing: increments with `Δ · CHUNK ≥ 2^63` (the `int64` byte count wraps: finding) and, between
-`2^53` and that, the last-bit rounding of the float product. -/
+/-- every accepted marker moves its counter by an increment whose byte count fits an `int64` (the guard of /repo
+83c108b): `0 ≤ Δ ≤ MaxInt64/CHUNK_SIZE`, hence the byte count the price is computed from is the true `Δ·CHUNK`. -/
+theorem accepted_increment_in_range {cr : Crypto F} {s s' : St F} {m : Marker F} {v : Nat}
+    (h : commit cr s m = .ok (s', v)) :
+    0 ≤ m.ctr - s.lastCtr (keyM m) ∧ m.ctr - s.lastCtr (keyM m) ≤ maxDelta ∧
+      wrapI64 ((m.ctr - s.lastCtr (keyM m)) * (chunkSize : Int)) = (m.ctr - s.lastCtr (keyM m)) * (chunkSize : Int) := by
+  obtain ⟨_, _, _, _, _, _, _, _, _, _, _, _, hr, _⟩ := commit_inv h
+  exact ⟨hr.1, hr.2, (wrap_in_range _ hr.1 hr.2).1⟩
+
+/-- a marker whose increment is beyond the guard is refused — the repaired overflow. -/
+theorem overflow_increment_refused (cr : Crypto F) (s : St F) (m : Marker F)
+    (h : maxDelta < m.ctr - s.lastCtr (keyM m)) : ∃ e, commit cr s m = .error e := by
+  cases hc : commit cr s m with
+  | error e => exact ⟨e, rfl⟩
+  | ok r =>
+    obtain ⟨s', v⟩ := r
+    have := (accepted_increment_in_range hc).2.1
+    omega
+
+/-- … and the debit is the exact floor `⌊price · Δ · CHUNK / GB⌋` whenever `price · Δ · CHUNK < 2^53` — the only
+hypothesis left: no rounding anywhere in the float pipeline (the `int64` wrap is excluded by the contract's guard).
+FULL statement (false of the code for float reasons only, see `float_rounding_witness`): the same for every accepted
+increment. Above `2^53` the float product is the correctly rounded one (relative error ≤ 2^-53, then truncated), and the
+charge stays monotone in the increment (`charge_monotone_in_range`). -/
 theorem read_charge_floor_partial {cr : Crypto F} {s s' : St F} {m : Marker F} {v : Nat}
     (h : commit cr s m = .ok (s', v)) :
     ∃ al d, aGet s.allocs m.alloc = some al ∧ al.bas.find? (fun d => d.blobber = m.blobber) = some d ∧
-      ∀ n : Nat, m.ctr - s.lastCtr (keyM m) = (n : Int) → d.price < 2 ^ 53 → n * chunkSize < 2 ^ 53 →
+      ∀ n : Nat, m.ctr - s.lastCtr (keyM m) = (n : Int) →
         d.price * (n * chunkSize) < 2 ^ 53 → v = d.price * (n * chunkSize) / gb := by
   obtain ⟨al, d, hal, hd, hval, _⟩ := read_charge_exact h
   refine ⟨al, d, hal, hd, ?_⟩
-  intro n hn hp hs hps
-  rw [hn, chargeOf_exact d.price n hp hs hps] at hval
-  exact (Option.some.inj hval).symm
+  intro n hn hps
+  rw [hn] at hval
+  have hcs : chunkSize = 65536 := rfl
+  rcases Nat.eq_zero_or_pos n with h0 | h0
+  · subst h0
+    have := chargeOf_zero _ _ hval
+    subst this
+    simp
+  · rcases Nat.eq_zero_or_pos d.price with hp0 | hp0
+    · rw [hp0] at hval ⊢
+      have := chargeOf_price_zero _ _ hval
+      subst this
+      simp
+    · have h1 : 1 ≤ n * chunkSize := by rw [hcs]; omega
+      have hp : d.price < 2 ^ 53 := by
+        have : d.price * 1 ≤ d.price * (n * chunkSize) := Nat.mul_le_mul_left _ h1
+        omega
+      have hs : n * chunkSize < 2 ^ 53 := by
+        have : 1 * (n * chunkSize) ≤ d.price * (n * chunkSize) := Nat.mul_le_mul_right _ hp0
+        omega
+      rw [chargeOf_exact d.price n hp hs hps] at hval
+      exact (Option.some.inj hval).symm
 
 /-! ## counters only move forward -/
 
@@ -407,24 +450,33 @@ theorem other_signer_rejected {K : Type} [Field K] [DecidableEq K] (cr : Crypto 
   intro he
   exact hne (mul_right_cancel₀ hnz he)
 
-/-! ## the unguarded statement is false: `int64` overflow of the byte count -/
+/-! ## what is left of the full statement: float rounding; and the repaired overflow, for the record -/
 
-/-- **negation witness**: at read price 1 a counter increment of `2^48` chunks is charged 0 (the exact price is
-`17179869184`), and `2^48 + 1` chunks are charged like one chunk at price `16384`. -/
-theorem overflow_undercharges :
+/-- **the charge is monotone in the increment** over the whole range the contract admits, for read prices below 2^53
+(the configured maximum is 7·10^10): rounding never reorders charges. -/
+theorem charge_monotone_in_range (price n1 n2 v1 v2 : Nat) (hp : price < 2 ^ 53) (hle : n1 ≤ n2)
+    (hr : (n2 : Int) ≤ maxDelta) (h1 : chargeOf price (n1 : Int) = some v1) (h2 : chargeOf price (n2 : Int) = some v2) :
+    v1 ≤ v2 := by
+  have hw := (wrap_in_range (n2 : Int) (by omega) hr).2
+  have hcs : (chunkSize : Int) = 65536 := by decide
+  have hcs' : chunkSize = 65536 := rfl
+  rw [hcs] at hw
+  have : n2 * chunkSize < 2 ^ 63 := by rw [hcs']; omega
+  exact chargeOf_mono price n1 n2 v1 v2 hp hle this h1 h2
+
+/-- **negation witness of the full statement (float rounding only)**: inside the admitted range, at the maximal
+read price 7·10^10 an increment of 1104042983 chunks is charged 4716980518188477, one unit more than the rational
+floor 4716980518188476 (`price·Δ·CHUNK ≈ 2^82`, the double product rounds up across an integer). -/
+theorem float_rounding_witness :
+    chargeOf 70000000000 1104042983 = some 4716980518188477 ∧
+    70000000000 * (1104042983 * chunkSize) / gb = 4716980518188476 ∧ (1104042983 : Int) ≤ maxDelta := by decide +kernel
+
+/-- **historical** (the finding repaired by /repo 83c108b): the bare pricing formula wraps its `int64` byte count — at
+read price 1 an increment of `2^48` chunks evaluates to 0 (the rational price is 17179869184) and `2^48+1` chunks to one
+chunk's price. Such increments no longer reach the formula (`overflow_increment_refused`): both exceed `maxDelta`. -/
+theorem historical_unguarded_formula_wraps :
     chargeOf 1 (2 ^ 48) = some 0 ∧ 1 * (2 ^ 48 * chunkSize) / gb = 17179869184 ∧
-    chargeOf 16384 (2 ^ 48 + 1) = some 1 ∧ chargeOf 16384 1 = some 1 := by decide +kernel
-
-/-- the full-strength reading "the debit is `⌊price · Δ · CHUNK / GB⌋` for every increment" is false of the code. -/
-theorem read_charge_linear_false :
-    ¬ ∀ (price : Nat) (n : Nat), chargeOf price (n : Int) = some (price * (n * chunkSize) / gb) := by
-  intro h
-  have := h 1 (2 ^ 48)
-  have w : chargeOf 1 ((2 ^ 48 : Nat) : Int) = some 0 := by decide +kernel
-  rw [w] at this
-  have : (0 : Nat) = 1 * (2 ^ 48 * chunkSize) / gb := Option.some.inj this
-  revert this
-  decide
+    chargeOf 16384 (2 ^ 48 + 1) = some 1 ∧ chargeOf 16384 1 = some 1 ∧ maxDelta < 2 ^ 48 := by decide +kernel
 
 /-! ## non-vacuity: a concrete world in which markers are accepted, replayed, refused -/
 
